@@ -1,6 +1,6 @@
 (** Property C11 — the theorems the check counts as obligations.  Nothing but
     statements closed by [exact] and [Print Assumptions]. *)
-From HS Require Import Base.Prelude C11.Model C11.NodeProofs C11.Election C11.Refute C11.LogProofs C11.Progress.
+From HS Require Import Base.Prelude C11.Model C11.NodeProofs C11.Election C11.Refute C11.LogProofs C11.LogMatching C11.Progress.
 Local Open Scope Z_scope.
 
 (** Each node applies indices 1,2,3,... in order without gaps or repeats, for
@@ -54,9 +54,24 @@ Theorem c11_submit_future_refuted : ~ submit_future_statement.
 Proof. exact submit_future_refuted. Qed.
 Print Assumptions c11_submit_future_refuted.
 
-(** Log matching, the per-step part that is proved (PARTIAL; the cluster-level
-    statements [log_matching_statement], [leader_completeness_statement] and
-    [state_machine_safety_statement] of C11/LogProofs.v are stated, not
+(** LOG MATCHING, cluster level, for EVERY schedule and every cluster (any
+    duplicate-free id list): two logs that hold entries of the same term at the
+    same index are identical up to that index (C11/LogMatching.v: ghost "leader
+    log of term t", prefix-consistency invariant over all logs and all
+    AppendEntries messages in flight; uses election safety and leader
+    append-only).  Writing this invariant exposed the defect repaired by
+    a36023d (stale-term AppendEntries replies). *)
+Theorem c11_log_matching : forall l acts, NoDup l ->
+  let w := net_run (net_init l) acts in
+  forall a b i e e', In a l -> In b l ->
+    log_get (log (nodes w a)) i = Some e -> log_get (log (nodes w b)) i = Some e' -> fst e = fst e' ->
+    firstn (Z.to_nat i) (log (nodes w a)) = firstn (Z.to_nat i) (log (nodes w b)).
+Proof. exact log_matching. Qed.
+Print Assumptions c11_log_matching.
+
+(** Log matching, the per-step fact about replies (the cluster-level
+    statements [leader_completeness_statement] and
+    [state_machine_safety_statement] of C11/LogProofs.v remain stated, not
     proved, and are checked by the oracle on the implementation).
     A successful AppendEntries reply reports prev_log_index + len(entries) —
     never more (the defect fixed in 2aaca38) — and up to that index the
